@@ -10,6 +10,7 @@ for p in $(./bin/factgen -prop list); do
   rm -f lean/Fabio/Generated/$p.lean
   ./bin/factgen -repo /repo -prop $p -out lean/Fabio/Generated/$p.lean || echo "setup: factgen $p failed (reported by the check of $p)" >&2
 done
+python3 tools/mkgomod.py /repo harness/go.mod
 cp /repo/go.sum harness/go.sum
 props=$(ls checks | sed 's/\.json$//')
 for p in $props; do
